@@ -252,9 +252,8 @@ type V2Tables struct {
 	Base [3][3][3][3][3][3]TSet
 	// BaseExact is the exact base-equation value (for reports).
 	BaseExact [3][3][3][3][3][3]string
-	// Adj[av][ac][au][c][i][a][cr][ir][ar]: admissible adjusted base scores;
-	// where the exact value is negative the set also holds 0 (clamp) and
-	// AdjNeg is true.
+	// Adj[av][ac][au][c][i][a][cr][ir][ar]: admissible adjusted base scores
+	// (possibly negative); AdjNeg is true where the exact value is negative.
 	Adj    [3][3][3][3][3][3][4][4][4]TSet
 	AdjNeg [3][3][3][3][3][3][4][4][4]bool
 	// CapBound[c][i][a][cr][ir][ar]: min(10, .) was binding.
@@ -307,12 +306,12 @@ func Tables2() *V2Tables {
 									for ir := 0; ir < 4; ir++ {
 										for ar := 0; ar < 4; ar++ {
 											y := v2BaseEq(adj[cr][ir][ar], expl[av][ac][au])
-											s := Round1Set(y)
+											// intermediate values are NOT clamped: the property only lets the final
+											// environmental result be reported as 0 when the equation itself is negative
 											if y.Sign() < 0 {
-												s = s.add(0)
 												t.AdjNeg[av][ac][au][c][i][a][cr][ir][ar] = true
 											}
-											t.Adj[av][ac][au][c][i][a][cr][ir][ar] = s
+											t.Adj[av][ac][au][c][i][a][cr][ir][ar] = Round1Set(y)
 										}
 									}
 								}
@@ -337,31 +336,28 @@ var (
 )
 
 // V2TemporalSet returns the admissible temporal scores for an admissible set
-// of (adjusted) base scores.  neg widens with 0 where a member is negative.
+// of (adjusted) base scores (no clamping of negative values).
 func V2TemporalSet(b TSet, e, rl, rc int) TSet {
 	var out TSet
 	for _, k := range b {
-		s := roundSetInt(int64(k)*v2EW[e]*v2RLW[rl]*v2RCW[rc], 1000000)
-		out = out.union(s)
-		if k < 0 {
-			out = out.add(0)
-		}
+		out = out.union(roundSetInt(int64(k)*v2EW[e]*v2RLW[rl]*v2RCW[rc], 1000000))
 	}
 	return out
 }
 
 // V2EnvSet returns the admissible environmental scores from admissible
-// adjusted temporal scores.
-func V2EnvSet(at TSet, cdp, td int) TSet {
-	var out TSet
+// adjusted temporal scores.  Where the final equation itself is negative the
+// set holds that negative tenth and 0, and neg is true.
+func V2EnvSet(at TSet, cdp, td int) (out TSet, neg bool) {
 	for _, k := range at {
 		n := (10*int64(k) + (100-int64(k))*v2CDPW[cdp]) * v2TDW[td]
 		out = out.union(roundSetInt(n, 1000))
 		if n < 0 {
 			out = out.add(0)
+			neg = true
 		}
 	}
-	return out
+	return out, neg
 }
 
 // V2Expect bundles what the model admits for one vector.
@@ -370,7 +366,7 @@ type V2Expect struct {
 	Temp   TSet // == Base when the temporal group is absent
 	Env    TSet // == Temp when the environmental group is absent
 	AdjB   TSet // admissible adjusted base (only with HasE)
-	EnvNeg bool // the specification's own equation is negative somewhere on the way
+	EnvNeg bool // the specification's environmental equation itself is negative (for some admissible rounding)
 }
 
 // Expect2 evaluates the model on v.
@@ -389,13 +385,18 @@ func Expect2(v *V2) V2Expect {
 		return x
 	}
 	x.AdjB = t.Adj[m[V2AV]][m[V2AC]][m[V2Au]][m[V2C]][m[V2I]][m[V2A]][m[V2CR]][m[V2IR]][m[V2AR]]
-	x.EnvNeg = t.AdjNeg[m[V2AV]][m[V2AC]][m[V2Au]][m[V2C]][m[V2I]][m[V2A]][m[V2CR]][m[V2IR]][m[V2AR]]
-	x.Env = V2EnvFromAdj(x.AdjB, v)
+	x.Env, x.EnvNeg = V2EnvFromAdjNeg(x.AdjB, v)
 	return x
 }
 
 // V2EnvFromAdj chains adjusted base -> adjusted temporal -> environmental.
 func V2EnvFromAdj(adj TSet, v *V2) TSet {
+	s, _ := V2EnvFromAdjNeg(adj, v)
+	return s
+}
+
+// V2EnvFromAdjNeg also reports whether the final equation was negative.
+func V2EnvFromAdjNeg(adj TSet, v *V2) (TSet, bool) {
 	at := adj
 	if v.HasT {
 		at = V2TemporalSet(adj, int(v.M[V2E]), int(v.M[V2RL]), int(v.M[V2RC]))
